@@ -38,8 +38,13 @@ func vExecute(e *executor.DefaultExecutor, ctx context.Context, job *executor.Jo
 	c := vCall{Cmd: job.Command, Job: job, Ctx: ctx}
 	var out []byte
 	if vOutLen > 0 && job.Stdout != nil {
-		s := rt.Str("stdout."+vDigits[k], vOutLen)
-		out = []byte(s)
+		// the command prints vOutLen arbitrary bytes (no ANSI introducer: outside the prefixed decorator's model)
+		out = make([]byte, vOutLen)
+		for i := range out {
+			b := rt.Uint8("stdout." + vDigits[k] + "." + vDigits[i])
+			rt.Assume(rt.And(b != 0x1b, b != 0xc2))
+			out[i] = b
+		}
 		job.Stdout.Write(out)
 	}
 	nk := 2
